@@ -65,11 +65,59 @@ func runC15(c *Ctx) {
 	g := setF.Graph()
 	removes := setF.Calls(setF.Decl.Body, false, "list.List.Remove")
 	pushes := setF.Calls(setF.Decl.Body, false, "list.List.PushFront")
-	if len(removes) != 1 || len(pushes) != 1 {
-		c.Undecided("C15.1", setF.Name+"|shape", "expected one list.Remove and one list.PushFront in set (found %d, %d)", len(removes), len(pushes))
+	if len(removes) == 0 || len(pushes) != 1 {
+		c.Undecided("C15.1", setF.Name+"|shape", "expected list.Remove calls and one list.PushFront in set (found %d, %d)", len(removes), len(pushes))
 		return
 	}
-	rm, push := removes[0], pushes[0]
+	// the eviction is the Remove whose operand is not the hit entry; any other Remove replaces the hit entry
+	hitEntry, _ := hitVars(setF)
+	var rm *ast.CallExpr
+	for _, r := range removes {
+		if id, ok := ast.Unparen(r.Args[0]).(*ast.Ident); ok && hitEntry != nil && setF.ObjOf(id) == hitEntry {
+			continue
+		}
+		rm = r
+	}
+	if rm == nil {
+		c.Undecided("C15.1", setF.Name+"|shape", "no eviction (Remove of a searched victim) found in set")
+		return
+	}
+	push := pushes[0]
+	// every Remove is followed by the delete of a map key (or the key's re-registration) before the
+	// capacity test can be evaluated or the function returns: map and list must agree there
+	for i, r := range removes {
+		key := setF.Name + "|remove#" + itoa(i+1) + "|map-follows"
+		loc, _ := g.Locate(r)
+		bad, _ := g.Forward(&loc, nil, func(nn ast.Node, at Loc) Verdict {
+			fixed := false
+			ast.Inspect(nn, func(y ast.Node) bool {
+				if call, ok := y.(*ast.CallExpr); ok {
+					if id, ok := call.Fun.(*ast.Ident); ok && id.Name == "delete" {
+						fixed = true
+					}
+				}
+				return true
+			})
+			if as, ok := nn.(*ast.AssignStmt); ok && len(as.Lhs) == 1 {
+				if ix, ok := ast.Unparen(as.Lhs[0]).(*ast.IndexExpr); ok {
+					if _, isMap := setF.TypeOf(ix.X).Underlying().(*types.Map); isMap {
+						fixed = true
+					}
+				}
+			}
+			if fixed {
+				return Cut
+			}
+			if e, ok := nn.(ast.Expr); ok && strings.Contains(exprKey(e), "maxNodes") {
+				return Hit
+			}
+			if _, ok := nn.(*ast.ReturnStmt); ok {
+				return Hit
+			}
+			return Go
+		}, nil)
+		c.Check(!bad, "C15.2", key, r.Pos(), "the map is brought in line before capacity is tested or the function returns", "after this list.Remove the capacity test (or a return) is reached while the removed element's key is still in the map: the cache looks full although an element was dropped, an innocent entry is evicted, and map and list disagree")
+	}
 	rl, _ := g.Locate(rm)
 	victim, _ := ast.Unparen(rm.Args[0]).(*ast.Ident)
 	// ---- C15.1
@@ -77,93 +125,16 @@ func runC15(c *Ctx) {
 	if victim == nil {
 		c.Undecided("C15.1", key, "victim is not a plain variable")
 	} else {
-		vobj := setF.ObjOf(victim)
-		guarded, cached := false, false
-		for _, b := range g.c.Blocks {
-			if !g.Reachable(b) || len(b.Succs) != 2 {
-				continue
-			}
-			for si := range b.Succs {
-				info, ok := g.EdgeInfo(b, si)
-				if !ok {
-					continue
-				}
-				cond, val := ast.Unparen(info.Cond), info.Val
-				if u, ok := cond.(*ast.UnaryExpr); ok && u.Op == token.NOT {
-					cond, val = ast.Unparen(u.X), !val
-				}
-				mentionsVictim := false
-				ast.Inspect(cond, func(y ast.Node) bool {
-					if id, ok := y.(*ast.Ident); ok && setF.ObjOf(id) == vobj {
-						mentionsVictim = true
-					}
-					return true
-				})
-				if !mentionsVictim || val {
-					continue
-				}
-				// reaches the Remove through this (not-dirty) edge, directly or via break
-				reach := false
-				start := Loc{b.Succs[si], -1}
-				if b.Succs[si] == rl.B {
-					reach = true
-				}
-				g.Forward(&start, nil, func(nn ast.Node, at Loc) Verdict {
-					if at == rl {
-						reach = true
-						return Hit
-					}
-					// do not walk around the loop
-					return Go
-				}, nil)
-				if !reach {
-					continue
-				}
-				if call, ok := cond.(*ast.CallExpr); ok && setF.CallIs(call, "storage.btreeNode.isDirty") {
-					guarded = true
-				} else if sel, ok := cond.(*ast.SelectorExpr); ok {
-					if v := fieldVar(setF, sel); v != nil && strings.Contains(strings.ToLower(v.Name()), "dirty") {
-						if _, isNode := setF.w.Locks().sharedFld[v]; isNode && strings.HasPrefix(setF.w.Locks().sharedFld[v], "btreeNode.") {
-							guarded = true
-						} else {
-							cached = true
-						}
-					}
-				}
-			}
-		}
-		// every path from function entry to Remove must pass the not-dirty edge: check via path search avoiding that edge
-		if guarded {
-			reachUnchecked, _ := g.Forward(nil, func(b *cfg.Block, si int) bool {
-				info, ok := g.EdgeInfo(b, si)
-				if !ok {
-					return true
-				}
-				cond, val := ast.Unparen(info.Cond), info.Val
-				if u, ok := cond.(*ast.UnaryExpr); ok && u.Op == token.NOT {
-					cond, val = ast.Unparen(u.X), !val
-				}
-				if call, ok := cond.(*ast.CallExpr); ok && setF.CallIs(call, "storage.btreeNode.isDirty") && !val {
-					return false // cut the clean edge: Remove must become unreachable
-				}
-				return true
-			}, func(nn ast.Node, at Loc) Verdict {
-				if at == rl {
-					return Hit
-				}
-				return Go
-			}, nil)
-			if reachUnchecked {
-				guarded = false
-			}
-		}
+		reach, cached, tested := removeReachableWhenDirty(setF, g, setF.ObjOf(victim), rl)
 		switch {
-		case guarded:
-			c.OK("C15.1", key, rm.Pos(), 2, "Remove(%s) is reachable only through the not-dirty edge of %s...isDirty()", victim.Name, victim.Name)
 		case cached:
 			c.Fail("C15.1", key, rm.Pos(), "the victim's dirtiness is read from a flag cached in the cache entry, not from the page: a page dirtied after insertion is evicted unsaved (and cleaned pages stay pinned)")
+		case !tested:
+			c.Fail("C15.1", key, rm.Pos(), "list.Remove(%s) is reached without any isDirty() test of that element: a dirty (unsaved) page can be evicted", victim.Name)
+		case reach:
+			c.Fail("C15.1", key, rm.Pos(), "list.Remove(%s) is reachable on a path on which %s's page is dirty: an unsaved page can be evicted", victim.Name, victim.Name)
 		default:
-			c.Fail("C15.1", key, rm.Pos(), "list.Remove(%s) is reachable without the not-dirty edge of an isDirty() test on that element: a dirty (unsaved) page can be evicted", victim.Name)
+			c.OK("C15.1", key, rm.Pos(), 2, "Remove(%s) is unreachable on every path on which %s...isDirty() holds (path-sensitive exploration with the victim's nil-ness tracked)", victim.Name, victim.Name)
 		}
 	}
 	// ---- C15.2
@@ -389,6 +360,9 @@ func runC15(c *Ctx) {
 			}
 		}
 	}
+	if c.Prop == "C15" {
+		c04FlushOrder(c, "C15.7")
+	}
 }
 
 func runC16(c *Ctx) {
@@ -474,7 +448,7 @@ func runC16(c *Ctx) {
 	sub := NewCtx("C16", w)
 	runC15(sub)
 	for _, o := range sub.Obs {
-		if o.Rule == "C15.1" {
+		if o.Rule == "C15.1" || o.Rule == "C15.2" {
 			o.Rule = "C16.3"
 			c.Obs = append(c.Obs, o)
 		}
@@ -523,6 +497,7 @@ func runC16(c *Ctx) {
 	if n == 0 {
 		c.Undecided("C16.5", "subjects", "no use of LRUCache fields found")
 	}
+	ruleNodeOwnership(c, "C16.6")
 	c.Note("C16: the capacity is the literal argument of NewLRU in newFileStore; results for other capacities follow only under the premise 'dirty pages are flushed before they fill the cache', which is a runtime quantity and not decided here")
 }
 
@@ -535,4 +510,147 @@ func isRangeOperand(f *Func, sel *ast.SelectorExpr) bool {
 		return true
 	})
 	return found
+}
+
+// removeReachableWhenDirty explores the CFG of set assuming every isDirty() call on the
+// victim's page returns true; conditions are simplified to a constant, to `victim ==/!= nil`,
+// or to unknown, and the victim's nil-ness is tracked along the path. It reports whether the
+// Remove is still reachable, whether dirtiness is read from a cached (non-page) field, and
+// whether any live isDirty test on the victim exists at all.
+func removeReachableWhenDirty(f *Func, g *Graph, victim types.Object, target Loc) (reach, cached, tested bool) {
+	const (
+		unk = iota
+		isNil
+		notNil
+	)
+	type simp struct {
+		kind string // "const", "nilcmp", "unk"
+		val  bool   // const value, or for nilcmp: true means `victim != nil`
+	}
+	mentions := func(e ast.Expr) bool {
+		m := false
+		ast.Inspect(e, func(y ast.Node) bool {
+			if id, ok := y.(*ast.Ident); ok && f.ObjOf(id) == victim {
+				m = true
+			}
+			return true
+		})
+		return m
+	}
+	var simplify func(e ast.Expr) simp
+	simplify = func(e ast.Expr) simp {
+		e = ast.Unparen(e)
+		switch x := e.(type) {
+		case *ast.UnaryExpr:
+			if x.Op == token.NOT {
+				s := simplify(x.X)
+				if s.kind != "unk" {
+					s.val = !s.val
+				}
+				return s
+			}
+		case *ast.CallExpr:
+			if f.CallIs(x, "storage.btreeNode.isDirty") && mentions(x) {
+				tested = true
+				return simp{"const", true}
+			}
+		case *ast.SelectorExpr:
+			if v := fieldVar(f, x); v != nil && strings.Contains(strings.ToLower(v.Name()), "dirty") && mentions(x) {
+				if n, isNode := f.w.Locks().sharedFld[v]; isNode && strings.HasPrefix(n, "btreeNode.") {
+					tested = true
+					return simp{"const", true}
+				}
+				cached = true
+				return simp{"unk", false}
+			}
+		case *ast.BinaryExpr:
+			switch x.Op {
+			case token.EQL, token.NEQ:
+				if id, ok := ast.Unparen(x.X).(*ast.Ident); ok && f.ObjOf(id) == victim && isNilIdent(f, x.Y) {
+					return simp{"nilcmp", x.Op == token.NEQ}
+				}
+			case token.LAND, token.LOR:
+				a, b := simplify(x.X), simplify(x.Y)
+				and := x.Op == token.LAND
+				for _, p := range [][2]simp{{a, b}, {b, a}} {
+					if p[0].kind == "const" {
+						if p[0].val == and { // true && b = b ; false || b = b
+							return p[1]
+						}
+						return simp{"const", !and} // false && _ = false ; true || _ = true
+					}
+				}
+				return simp{"unk", false}
+			}
+		}
+		return simp{"unk", false}
+	}
+	type state struct {
+		b   *cfg.Block
+		nil int
+	}
+	seen := map[state]bool{}
+	var work []state
+	work = append(work, state{g.Entry(), unk})
+	for len(work) > 0 {
+		st := work[len(work)-1]
+		work = work[:len(work)-1]
+		if seen[st] {
+			continue
+		}
+		seen[st] = true
+		nilness := st.nil
+		stop := false
+		for i, n := range st.b.Nodes {
+			if (Loc{st.b, i}) == target {
+				return true, cached, tested
+			}
+			if as, ok := n.(*ast.AssignStmt); ok {
+				for _, l := range as.Lhs {
+					if id, ok := l.(*ast.Ident); ok && f.ObjOf(id) == victim {
+						nilness = unk
+					}
+				}
+			}
+			if _, ok := n.(*ast.ReturnStmt); ok {
+				stop = true
+			}
+		}
+		if stop {
+			continue
+		}
+		if len(st.b.Succs) == 2 {
+			if info, ok := g.EdgeInfo(st.b, 0); ok && !info.Case {
+				s := simplify(info.Cond)
+				for si, succ := range st.b.Succs {
+					val := si == 0
+					nn := nilness
+					switch s.kind {
+					case "const":
+						if s.val != val {
+							continue
+						}
+					case "nilcmp":
+						// s.val: cond is `victim != nil`
+						condTrueMeansNotNil := s.val
+						isNotNil := val == condTrueMeansNotNil
+						if nilness == isNil && isNotNil || nilness == notNil && !isNotNil {
+							continue
+						}
+						if isNotNil {
+							nn = notNil
+						} else {
+							nn = isNil
+						}
+					}
+					work = append(work, state{succ, nn})
+				}
+				continue
+			}
+		}
+		for _, succ := range st.b.Succs {
+			work = append(work, state{succ, nilness})
+		}
+	}
+	return false, cached, tested
 }
